@@ -37,6 +37,9 @@ Mechanism keys (DESIGN Appendix A):
       sel       sel = the marker is bare or names the diagnostic's code, unsel = the diagnostic's line is in the
                 marker's scope but the marker names other codes, - = not about one diagnostic
       direction as above, plus duplicate-ignore-report
+  comment|post-check-diagnostic|<direction>                command-line route; the clause failed on a diagnostic that is not
+                                                           among those NameCheckVisitor.check() returns (it is produced when the
+                                                           whole run is over): one mechanism whatever the comment form
 """
 from __future__ import annotations
 
@@ -81,7 +84,10 @@ RULE = (
     "docstring} and g0 also from {shebang, coding line, shebang + coding, shebang + comments, comment + blank}: markers "
     "in the leading comment block (whole-file scope) in first / later position, markers below a blank line or a "
     "docstring that ended the block (own-line scope: the next physical line, which is P's first line, another marker "
-    "or a comment), ordinary comment / shebang / coding lines that do not end the block. Non-trivial = disable case with {} != S != codes(P); "
+    "or a comment), ordinary comment / shebang / coding lines that do not end the block. Post-check diagnostics = P + a "
+    "class whose method reads an attribute nothing sets (reported by the attribute checker when the whole run is over, "
+    "so only the command line shows it), comment aimed at that read: trailing / own-line / file-level x bare / its code / "
+    "another code, on the real command line (4 shards x 3 forms in quick). Non-trivial = disable case with {} != S != codes(P); "
     "comment case whose target line carries a diagnostic or which is a boundary placement (line 1, last line, EOF, line "
     "after a multi-diagnostic line, leading); header case with >= 2 markers or a marker whose scope holds a diagnostic. "
     "Distinct by (program digest, route, S) / (program digest, form, line, comment) / (program digest, header lines). "
@@ -118,29 +124,41 @@ ASSUMPTIONS = [
     "under a bare file-level marker (whole file suppressed) unused_ignore / bare_ignore reports about the OTHER markers "
     "are observed, not judged (they are diagnostics of the suppressed file)",
     "'suppressed nothing' is decided on what was observed: no diagnostic of D(P) is missing from D(P + comment)",
-    "diagnostics produced after check() returns (ClassAttributeChecker) are not observable through harness.run except on the CLI route",
+    "diagnostics produced after check() returns (ClassAttributeChecker) are not observable through harness.run; they are "
+    "judged on the CLI route only, for the one appended class (a diagnostic counts as 'post-check' when the command line "
+    "reports it and NameCheckVisitor.check() on the same text does not)",
     "interaction corpus: base run and disabled run happen in one process (same hash seed), so an iteration-order "
     "dependent verdict of pyanalyze (a set of names walked with all()) is the same in both",
 ]
 FLOORS = {   # ~50 % of what the unchanged tree yields (quick: 160 programs, thorough: 1600)
-    "quick": {"distinct_nontrivial": 10400, "programs": 80, "disable_cases": 7300, "disable_cases_nontrivial": 6900,
+    "quick": {"distinct_nontrivial": 14000, "programs": 80, "disable_cases": 7300, "disable_cases_nontrivial": 6900,
               "comment_cases": 10300, "comment_cases_target_has_diag": 1900, "comment_suppressed_something": 2150,
               "eof_own_line_cases": 240, "file_level_bare_cases": 90, "fresh_checker_configs": 400, "cli_runs": 16,
               "disable_cases_foreign_code": 320, "interaction_cases": 200, "interaction_cases_code_not_in_D(P)": 160,
               "interaction_functions": 75, "interaction_functions_mention_counts_as_use": 28,
-              "interaction_functions_brace_mention_counts_as_use": 15, "interaction_cli_cases": 4},
-    "thorough": {"distinct_nontrivial": 105000, "programs": 800, "disable_cases": 75000, "disable_cases_nontrivial": 72000,
+              "interaction_functions_brace_mention_counts_as_use": 15, "interaction_cli_cases": 4,
+              "header_cases": 3300, "header_cases_2plus_markers_in_block": 1900,
+              "header_cases_diag_covered_only_by_later_marker": 900, "header_cases_bare_marker_after_another_in_block": 700,
+              "header_cases_marker_after_block_end": 1600, "header_cases_own_line_marker_hits_first_line_of_P": 150,
+              "header_suppressed_proper_part": 850, "header_reported_unused": 2000,
+              "post_check_cases": 6, "post_check_cases_aimed_at_late_diagnostic": 5},
+    "thorough": {"distinct_nontrivial": 135000, "programs": 800, "disable_cases": 75000, "disable_cases_nontrivial": 72000,
                  "comment_cases": 105000, "comment_cases_target_has_diag": 19000, "comment_suppressed_something": 21500,
                  "eof_own_line_cases": 2400, "file_level_bare_cases": 880, "fresh_checker_configs": 4800, "cli_runs": 72,
                  "disable_cases_foreign_code": 3200, "interaction_cases": 850, "interaction_cases_code_not_in_D(P)": 650,
                  "interaction_functions": 375, "interaction_functions_mention_counts_as_use": 140,
-                 "interaction_functions_brace_mention_counts_as_use": 70, "interaction_cli_cases": 16},
+                 "interaction_functions_brace_mention_counts_as_use": 70, "interaction_cli_cases": 16,
+                 "header_cases": 33000, "header_cases_2plus_markers_in_block": 19000,
+                 "header_cases_diag_covered_only_by_later_marker": 9000, "header_cases_bare_marker_after_another_in_block": 7000,
+                 "header_cases_marker_after_block_end": 16000, "header_cases_own_line_marker_hits_first_line_of_P": 1500,
+                 "header_suppressed_proper_part": 8500, "header_reported_unused": 20000,
+                 "post_check_cases": 48, "post_check_cases_aimed_at_late_diagnostic": 40},
 }
 LEVEL_TEXT = (
     "held-on-explored: every (program, S, route) and every admissible comment placement of the generated programs was "
     "executed through the real checker and judged by multiset algebra on its own output; nothing is claimed about "
     "programs, routes or placements outside the rule (comments inside strings, several comments in the body of a file, "
-    "diagnostics of the ClassAttributeChecker); on the interaction corpus every single code was disabled, larger "
+    "diagnostics of the ClassAttributeChecker other than the one appended never-set attribute read); on the interaction corpus every single code was disabled, larger "
     "subsets only sampled"
 )
 NSHARDS = 16
@@ -1010,6 +1028,48 @@ def minimise_header(witness: dict, key: str) -> dict:
 
 
 # ---------------------------------------------------------------------------
+# diagnostics produced after check() has returned (the attribute checker of a whole run): only the command line shows
+# them.  A class whose method reads an attribute nothing sets is appended to P; the ignore comment is aimed at that read.
+
+LATE_BLOCK = ["", "", "class VpLate:", "    def m(self) -> object:", "        return self.vp_attribute_nothing_sets"]
+LATE_FORMS = [("trailing", "bare"), ("trailing", "match"), ("own-line", "match"), ("file-level", "match"),
+              ("own-line", "bare"), ("trailing", "other")]
+
+
+def with_late_block(source: str) -> tuple:
+    """-> (P + class block, physical line of the attribute read)"""
+    body = source if source.endswith("\n") else source + "\n"
+    out = body + "\n".join(LATE_BLOCK) + "\n"
+    return out, len(out.splitlines())
+
+
+def late_case(source: str, form: str, line: int, code: Optional[str], indent: str,
+              base_cli: Optional[Counter] = None, base_inproc: Optional[Counter] = None):
+    """One placement judged on the command-line route. -> ((key, what) or None, info, n_late)."""
+    if base_cli is None:
+        base_cli = cli_diags(source, [])
+    if base_inproc is None:
+        base_inproc = run_diags(source, comment_kw())
+    late_codes = {d[0] for d in (base_cli - base_inproc)}
+    new_source, cl, tl, leading = apply_placement(source, form, line, code, indent)
+    got = cli_diags(new_source, [])
+    v, info = judge_comment(base_cli, got, form, line, code, cl, tl, leading, len(new_source.splitlines()))
+    info["late_codes"] = sorted(late_codes)
+    if v is None:
+        return None, info
+    form_name, sel, pos, direction, d = v
+    removed_late = direction.startswith("unused") and any(
+        x[0] in late_codes for x in (shift(base_cli, form, line) - got))
+    if d[0] in late_codes or removed_late:
+        # the clause failed on a diagnostic that exists only after check() returned: one mechanism, whatever the form
+        return (f"comment|post-check-diagnostic|{direction}",
+                f"command line, {comment_text(code)!r} placed {form} at line {line}: {direction}; affected diagnostic "
+                f"{short(d)} is produced after check() returned (not among the diagnostics of NameCheckVisitor.check())"), info
+    key, what = key_what(v, form, line, code)
+    return (key, "command line: " + what), info
+
+
+# ---------------------------------------------------------------------------
 # witness minimisation (greedy physical-line deletion while the same key keeps being produced)
 
 
@@ -1037,7 +1097,7 @@ def minimise(witness: dict, key: str, budget: int) -> dict:
                 cand = dict(best)
                 cand["source"] = "\n".join(cand_lines)
                 ok = True
-                if best["kind"] == "comment":
+                if best["kind"] in ("comment", "comment-cli"):
                     L = best["line"]
                     if best["form"] == "trailing" and L in removed_nos:
                         ok = False
@@ -1252,6 +1312,7 @@ def shard(ctx) -> None:
     interaction_section(ctx, seen_keys)
     gc.collect()
     cli_left = ctx.pick(1, 3)
+    late_left = ctx.pick(1, 2)
     mine_count = 0
     for idx in range(nprog):
         source, expected = gen_program_info(prog_rng)
@@ -1499,6 +1560,49 @@ def shard(ctx) -> None:
                         ctx.note(f"header minimiser failed for {key}: {e!r}")
                 report(ctx, key, what, witness, seen_keys, 60)
 
+        # ---------------- (4) a diagnostic produced after check() returned, on the command line ----------------
+        if late_left > 0 and (ctx.shard % 4 == 2 if ctx.quick else ctx.shard % 2 == 0):
+            late_left -= 1
+            src2, read_line = with_late_block(source)
+            try:
+                base_in = run_diags(src2, kw_c)
+                base_cli2 = cli_diags(src2, [])
+                ctx.count("cli_runs")
+                late_here = sorted({d[0] for d in (base_cli2 - base_in) if d[1] == read_line})
+                ctx.histo("post_check_baseline", "late-diagnostic:" + ",".join(late_here) if late_here else "no-late-diagnostic")
+                match = late_here[0] if late_here else "attribute_is_never_set"
+                forms = LATE_FORMS if not ctx.quick else [LATE_FORMS[(ctx.shard // 4 * 3 + k) % len(LATE_FORMS)] for k in range(3)]
+                for form_name, variant in forms:
+                    code = None if variant == "bare" else match if variant == "match" else codes[ctx.seed % len(codes)]
+                    form = "trailing" if form_name == "trailing" else "own-line"
+                    line = 1 if form_name == "file-level" else read_line
+                    indent = "        " if form_name == "own-line" else ""
+                    res, info = late_case(src2, form, line, code, indent, base_cli2, base_in)
+                    ctx.count("cli_runs")
+                    ctx.count("evaluations")
+                    ctx.count("post_check_cases")
+                    ctx.histo("post_check_form_x_variant", f"{form_name}:{variant}")
+                    if late_here and variant != "other":
+                        ctx.count("post_check_cases_aimed_at_late_diagnostic")
+                    ctx.nontrivial((pd, "post-check", form_name, variant))
+                    if res is None:
+                        continue
+                    key, what = res
+                    witness = {"kind": "comment-cli", "source": src2, "form": form, "line": line, "code": code, "indent": indent}
+                    if key not in seen_keys:
+                        seen_keys.add(key)
+                        small = dict(witness, source="\n".join(LATE_BLOCK[2:]) + "\n", line=1 if form_name == "file-level" else 3)
+                        try:
+                            r2 = replay(small)
+                            if r2 and r2[0] == key:
+                                witness, what = small, r2[1]
+                        except Exception as e:  # noqa: BLE001
+                            ctx.note(f"post-check witness reduction failed for {key}: {e!r}")
+                    ctx.violation(key, what, witness)
+            except Undecided as e:
+                ctx.count("undecided")
+                ctx.note(f"program {idx} (post-check part): {e}")
+
 
 _BRACKET_CACHE: dict = {}
 
@@ -1534,6 +1638,9 @@ def replay(witness):
         if kind == "comment":
             return comment_case(witness["source"], witness["form"], witness["line"], witness.get("code"),
                                 witness.get("indent", ""), comment_kw())
+        if kind == "comment-cli":
+            return late_case(witness["source"], witness["form"], witness["line"], witness.get("code"),
+                             witness.get("indent", ""))[0]
         if kind == "header":
             return header_case(witness["source"], witness["header"], comment_kw())
         if kind == "disable":
